@@ -308,12 +308,20 @@ def _run(ctx):
     E_ref = T.floors.floor(O * RF(D18) / p_, "ref E")
     ratio_b_ref = T.floors.floor((E_ref - R) * RF(D18) / E_ref, "ref belief ratio")
     ratio_s_ref = T.floors.floor(S * RF(D18) / (R + S), "ref spread ratio")
-    errs = {}
+    errs = []
     for (b, i, cls, v) in common.exit_sites(P, g):
         if cls == "err" and (v[0] == "agg" or common.rejects_via_check_helper(P, v)):
-            errs[b] = common.control_conditions(P, g, b)
+            for conj in common.control_conditions_dnf(P, g, b):      # one entry per way of reaching the rejection
+                # drop duplicate statements of the same switch outcome
+                seen_, cj = set(), []
+                for c_ in conj:
+                    k_ = (c_["sw"], str(c_["cond"][:2]), str(c_["allowed"]))
+                    if k_ not in seen_:
+                        seen_.add(k_)
+                        cj.append(c_)
+                errs.append((b, cj))
     modes = {}
-    for b, conds in errs.items():
+    for b, conds in errs:
         both = any(c["cond"][0] == "discr" and set(ctx.roots(c["cond"][1])) == {P_(g, belief_i)} and c["allowed"] == ["Some"] for c in conds)
         ms = any(c["cond"][0] == "discr" and set(ctx.roots(c["cond"][1])) == {P_(g, spread_i)} and c["allowed"] == ["Some"] for c in conds)
         cmpc = [c for c in conds if c["cond"][0] == "cmp"]
@@ -340,6 +348,11 @@ def _run(ctx):
                 if kind in ("gt", "ge"):
                     a, b_ = b_, a
                     kind = {"gt": "lt", "ge": "le"}[kind]
+                if kind in ("lt", "le") and al == [False]:
+                    # not (a < b) == b <= a ;  not (a <= b) == b < a
+                    a, b_ = b_, a
+                    kind = {"lt": "le", "le": "lt"}[kind]
+                    al = [True]
                 ta, tb = tr(a), tr(b_)
                 if kind == "lt" and al == [True] and ta.equals(R) and tb.equals(E_ref):
                     have_lt = True
@@ -362,6 +375,11 @@ def _run(ctx):
                 if kind in ("gt", "ge"):
                     a, b_ = b_, a
                     kind = {"gt": "lt", "ge": "le"}[kind]
+                if kind in ("lt", "le") and al == [False]:
+                    # not (a < b) == b <= a ;  not (a <= b) == b < a
+                    a, b_ = b_, a
+                    kind = {"lt": "le", "le": "lt"}[kind]
+                    al = [True]
                 ta, tb = tr(a), tr(b_)
                 if kind == "lt" and al == [True] and ta.equals(s_) and tb.equals(ratio_s_ref):
                     okc = True
